@@ -50,7 +50,7 @@ CHECKS = {
                 "memory. Equality with a reference cache's hit sequence is history-dependent and not decided.",
         "ref": "DESIGN.md section 2, C09",
         "note": "Trusted: ast, path enumeration (uncorrelated tests only add paths).",
-        "technique": "static analysis: per-path exactly-once rule (helpers inlined) + who-may-write + call-site enumeration + reference comparison of the cache lookups on dataflow normal forms",
+        "technique": "static analysis: statistic updates as normal-form stores with truth-function conditions (helpers inlined) + who-may-write + call-site enumeration + reference comparison of the cache lookups and the set's hit decision on dataflow normal forms + MEM stage datapath (memory_access exactly once)",
     },
     "C10": {
         "text": "Only the coupling and self-consistency clauses: the set notifies the policy on every hit and "
@@ -61,7 +61,7 @@ CHECKS = {
                 "reachable policy states and is not decided.",
         "ref": "DESIGN.md section 2, C10",
         "note": "Trusted: ast, normal forms, abstract interpreter. LRU.access is compared with enumerated reference forms of move-to-young-end (compared by value); an unrecognised formulation is reported as a violation (fail-closed).",
-        "technique": "static analysis: reference comparison of CacheSet.read/write on dataflow normal forms + abstract interpretation of both PLRU walks (affine forms over bit symbols, depths 0..4) + who-may-call",
+        "technique": "static analysis: reference comparison of CacheSet.read/write and of LRU.access (enumerated reference forms) on dataflow normal forms + abstract interpretation of both PLRU walks (affine forms over bit symbols, depths 0..4) + who-may-write of the policy state + who-may-call",
     },
     "C11": {
         "text": "Decides: exactly one guarded read_instruction per executed instruction on every path of the IF "
@@ -174,7 +174,7 @@ CHECKS = {
                 "summaries). Stale-read semantics by value and nop-padding equivalence are dynamic and not decided.",
         "ref": "DESIGN.md section 2, C08",
         "note": "Trusted: ast, sa.effects.",
-        "technique": "static analysis: single-reader + parameter-flow + effect confinement",
+        "technique": "static analysis: single-reader + parameter-flow by callee signature over every construction site + flag assumed off/on in the stage normal form + effect confinement",
     },
     "C14": {
         "text": "Decides the print/parse round trip structurally for every operand combination: each format's "
@@ -198,7 +198,7 @@ CHECKS = {
                 "front-end classification. IndexError/TypeError sites of ordinary subscripts are not enumerated.",
         "ref": "DESIGN.md section 2, C15",
         "note": "Trusted: ast, CPython literal syntax as modelled, sa.ppgram, sa.effects closure.",
-        "technique": "static analysis: regular-language inclusion + raise-site enumeration over the call graph + def-use",
+        "technique": "static analysis: regular-language inclusion + raise-site enumeration over the call graph + def-use / provenance (line numbers, str-or-ParseResults entries) + reference comparison of the raise effects of Pipeline.step",
     },
     "C17": {
         "text": "Decides: ascending order by construction (iteration over sorted(..)), agreement between the width each "
@@ -218,7 +218,7 @@ CHECKS = {
                 "dict semantics and not separately decided.",
         "ref": "DESIGN.md section 2, C18",
         "note": "Trusted: ast, bitslice, consteval, dict semantics.",
-        "technique": "static analysis: who-may-access + dataflow normal form of the cell accessors + abstract interpretation of the multi-cell accessors in the bit-slice domain + configuration folding",
+        "technique": "static analysis: who-may-access / who-may-call / no-override + dataflow normal form of the cell accessors + reference signatures of the width accessors + abstract interpretation of the multi-cell accessors in the bit-slice domain + configuration folding",
     },
     "C19": {
         "text": "Decides every row of the TOY encode/decode tables and the field arithmetic symbolically: 13 "
